@@ -29,13 +29,47 @@ fn step_ids(spec: &Value, acc: &mut Vec<String>) {
     }
 }
 
+/// model -> YAML -> model -> JSON -> model: is the result the model we started from
+fn round_trip(wf: &Workflow) -> bool {
+    let step = || -> Result<Workflow, String> {
+        let y = wf.to_yml().map_err(|e| e.to_string())?;
+        let w2 = Workflow::from_yml(&y).map_err(|e| e.to_string())?;
+        let j = w2.to_json().map_err(|e| e.to_string())?;
+        Workflow::from_json(&j).map_err(|e| e.to_string())
+    };
+    match step() {
+        Ok(w3) => serde_json::to_value(wf).unwrap() == serde_json::to_value(&w3).unwrap(),
+        Err(_) => false,
+    }
+}
+
+/// does the parsed model carry every value of the text it was parsed from
+fn keeps_text(wf: &Workflow, text: &str) -> bool {
+    fn covered(orig: &Value, got: &Value) -> bool {
+        match (orig, got) {
+            (Value::Object(a), Value::Object(b)) => a.iter().all(|(k, v)| match b.get(k) {
+                Some(w) => covered(v, w),
+                None => false,
+            }),
+            (Value::Array(a), Value::Array(b)) => a.len() == b.len() && a.iter().zip(b).all(|(x, y)| covered(x, y)),
+            (x, y) => x == y,
+        }
+    }
+    match serde_json::from_str::<Value>(text) {
+        Ok(orig) => covered(&orig, &serde_json::to_value(wf).unwrap()),
+        Err(_) => false,
+    }
+}
+
 fn engine_tree(model_text: &str) -> Value {
     match Workflow::from_json(model_text) {
         Ok(wf) => match verif::dump_tree(&wf) {
-            Ok(d) => json!({"ok": true, "nodes": tree::table(&d), "warn": d["error"]}),
-            Err(e) => json!({"ok": false, "err": e, "nodes": []}),
+            Ok(d) => json!({"ok": true, "nodes": tree::table(&d), "warn": d["error"],
+                "roundtrip": round_trip(&wf), "keeps": keeps_text(&wf, model_text)}),
+            Err(e) => json!({"ok": false, "err": e, "nodes": [], "roundtrip": round_trip(&wf),
+                "keeps": keeps_text(&wf, model_text)}),
         },
-        Err(e) => json!({"ok": false, "err": e.to_string(), "nodes": []}),
+        Err(e) => json!({"ok": false, "err": e.to_string(), "nodes": [], "roundtrip": false, "keeps": false}),
     }
 }
 
